@@ -134,6 +134,9 @@ func (obj *SparseFloat32Vector) SET(x *SparseFloat32Vector) {
   }
 }
 func (obj *SparseFloat32Vector) SLICE(i, j int) *SparseFloat32Vector {
+  if i < 0 || i > j || j > obj.n {
+    panic(fmt.Errorf("slice (%d:%d) out of bounds for vector of dimension %d", i, j, obj.n))
+  }
   r := nilSparseFloat32Vector(j-i)
   for it := obj.indexIteratorFrom(i); it.Ok(); it.Next() {
     if it.Get() >= j {
